@@ -124,8 +124,65 @@ fn eval_histories(tape: &[u32], st: &mut Stats) -> CaseResult {
 // ---------------------------------------------------------------------------------------------
 // 2. results do not depend on what the thread did before (parsing and evaluating other expressions)
 
+/// a chain of more than 2048 operands (the operand tracker of the flat form leaves its inline
+/// buffer): folded and unfolded flat form, every evaluation entry point, evaluated repeatedly
+fn snapshot_huge(t: &mut Tape) -> Result<String, String> {
+    use crate::term::OpSpec;
+    let table = vec![OpSpec::bin("-", 1, false), OpSpec::bin("*", 2, false)];
+    set_table(&table);
+    let n = 2050 + t.choose(150);
+    let nv = 2 + t.choose(8);
+    let mut text = String::new();
+    let mut items: Vec<usize> = vec![];
+    let mut ops: Vec<usize> = vec![];
+    for i in 0..n {
+        let v = if i < nv { i } else { t.choose(nv) };
+        if i > 0 {
+            let o = if t.chance(30) { 1 } else { 0 };
+            ops.push(o);
+            text.push_str(["-", "*"][o]);
+        }
+        items.push(v);
+        text.push_str(&format!("v{v}"));
+    }
+    let atom = |i: usize| Term::Atom(i as u32);
+    let mut prods: Vec<Term> = vec![];
+    let mut cur = atom(items[0]);
+    for i in 1..n {
+        if ops[i - 1] == 1 {
+            cur = Term::bin(1, cur, atom(items[i]));
+        } else {
+            prods.push(cur);
+            cur = atom(items[i]);
+        }
+    }
+    prods.push(cur);
+    let mut it = prods.into_iter();
+    let mut expected = it.next().unwrap();
+    for p in it {
+        expected = Term::bin(0, expected, p);
+    }
+    let vals: Vec<Term> = (0..nv).map(atom).collect();
+    let f = ex_msg(F::parse(&text))?;
+    let g = ex_msg(F::parse_wo_compile(&text))?;
+    let results = [
+        ex_msg(f.eval(&vals))?,
+        ex_msg(f.eval(&vals))?,
+        ex_msg(f.eval_vec(vals.clone()))?,
+        ex_msg(f.eval_iter(vals.clone().into_iter()))?,
+        ex_msg(g.eval_relaxed(&vals))?,
+        ex_msg(g.eval(&vals))?,
+    ];
+    let ok = results.iter().all(|r| *r == expected);
+    let h: Vec<u64> = results.iter().map(|r| crate::tape::hash_str(&format!("{r:?}"))).collect();
+    Ok(format!("chain of {n} operands over {nv} variables|{:?}|{h:?}|matches_reference={ok}", f.var_names()))
+}
+
 fn snapshot(tape_part: &[u32], cfgsel: usize) -> Result<String, String> {
     let mut t = Tape::new(tape_part);
+    if cfgsel == 5 {
+        return snapshot_huge(&mut t);
+    }
     let cfg = CaseCfg {
         table: TableCfg { max_bin: 8, ..TableCfg::default() },
         tree: TreeCfg { max_operands: [6usize, 70, 140, 200, 12][cfgsel % 5], lit_pct: 20, unary_pct: 8, shape_weights: [3, 5, 1], ..TreeCfg::default() },
@@ -148,7 +205,17 @@ fn history_independence(tape: &[u32], st: &mut Stats) -> CaseResult {
     let k = 2 + t.choose(4);
     // each case gets its own slice of the tape
     let rest: Vec<u32> = (0..k * 600).map(|_| t.raw()).collect();
-    let sels: Vec<usize> = (0..k).map(|i| (mix(rest[i * 600] as u64, i as u64) % 5) as usize).collect();
+    // one expression in ten is a chain of more than 2048 operands
+    let sels: Vec<usize> = (0..k)
+        .map(|i| {
+            let m = mix(rest[i * 600] as u64, i as u64);
+            if (m >> 32) % 10 == 0 {
+                5
+            } else {
+                (m % 5) as usize
+            }
+        })
+        .collect();
     let part = |i: usize| &rest[i * 600..(i + 1) * 600];
     // baseline: each case in a fresh thread
     let mut base = vec![];
@@ -163,7 +230,15 @@ fn history_independence(tape: &[u32], st: &mut Stats) -> CaseResult {
             Err(_) => return Err(fail("C20/independence/panic", "thread died".into(), json!({"case": i}))),
         }
     }
-    let long = sels.iter().filter(|s| [1usize, 2, 3].contains(s)).count();
+    if let Some(i) = base.iter().position(|b| b.ends_with("matches_reference=false")) {
+        return Err(fail(
+            "C20/independence/fresh-thread-wrong",
+            format!("expression {i} handled on a fresh thread (parsed once, evaluated repeatedly) does not denote its reference tree"),
+            json!({"fresh": base[i].chars().take(600).collect::<String>()}),
+        ));
+    }
+    st.class_if(sels.contains(&5), "a chain of more than 2048 operands in the history");
+    let long = sels.iter().filter(|s| [1usize, 2, 3, 5].contains(s)).count();
     st.class_if(long >= 2, ">=2 expressions with more than 64 operands in one history");
     if st.nontrivial(&base.join("#")) && st.want_sample() {
         st.sample(json!({"expressions": base.iter().map(|b| b.chars().take(100).collect::<String>()).collect::<Vec<_>>()}));
@@ -451,6 +526,7 @@ fn run_schedules(tier: Tier, seed: u64) -> SubReport {
                 break;
             }
             let cs = mix(seed, 90_000 + k + j);
+            let _ = std::fs::create_dir_all(format!("{}/.target", out_dir()));
             let status = format!("{}/.target/c20-{}-{}.status", out_dir(), std::process::id(), k + j);
             match std::process::Command::new(&exe).arg("c20-worker").arg(format!("{cs}")).arg(&status).stdout(std::process::Stdio::null()).stderr(std::process::Stdio::null()).spawn() {
                 Ok(c) => batch.push((c, status, cs)),
@@ -469,6 +545,11 @@ fn run_schedules(tier: Tier, seed: u64) -> SubReport {
             *stats.classes.entry("fresh process: racing first parse".into()).or_insert(0) += 1;
             if content.starts_with("OK") {
                 continue;
+            }
+            if content.is_empty() && matches!(st.as_ref().ok().and_then(|x| x.code()), Some(0) | Some(1)) {
+                // the worker finished normally but its verdict could not be read: infrastructure, not a finding
+                eprintln!("[C20] verdict file {status} of a worker process is missing (inconclusive)");
+                std::process::exit(2);
             }
             let msg = if content.starts_with("MISMATCH") { content[8..].trim().to_string() } else { format!("worker process ended with {st:?} without a verdict") };
             failures.push((fail("C20/schedule/fresh-process", msg, json!({"plan_seed": cs})), json!({"plan_seed": cs, "child": true})));
@@ -507,7 +588,7 @@ pub fn def() -> PropDef {
             },
             SubCheck {
                 name: "history_independence",
-                rule: "tape -> 2-5 (table, expression) pairs incl. chains of 70/140/200 operands; each handled on a fresh thread (baseline) and then all on one thread in three passes (forward, backward, forward): text, variables, values, printed deep form, listings must be identical to the baseline and equal the reference tree; non-trivial = every history (distinct by content)",
+                rule: "tape -> 2-5 (table, expression) pairs incl. chains of 70/140/200 operands and (one in ten) flat chains of 2050-2199 operands evaluated through every entry point; each handled on a fresh thread (baseline) and then all on one thread in three passes (forward, backward, forward): text, variables, values, printed deep form, listings must be identical to the baseline and equal the reference tree; non-trivial = every history (distinct by content)",
                 kind: Kind::Tape { len: 3100, quick: 1_500, thorough: 60_000, f: history_independence },
             },
             SubCheck {
